@@ -168,6 +168,9 @@ type World struct {
 	Switches  map[string]int // "siteA>siteB" pairs of consecutive releases (interleaving measure)
 	lastSite  string
 	StepCapHit bool
+	Beat       func() // called every 100000 driver iterations, at most 300 times per run
+	iters      int64
+	beats      int
 	Stalls     int64
 	TieBreaks  int64 // goroutine-id requests (same-site arrivals within one decision)
 	epoch      int64
@@ -417,6 +420,12 @@ func (w *World) After(d time.Duration, key string, fn func()) { w.At(w.Now()+d, 
 // (virtual) or when the step cap is hit.
 func (w *World) Run(until time.Duration) {
 	for {
+		// sign of life for the runner's watchdog in very long runs: bounded, so that a run which
+		// spins without end still falls silent and is killed
+		if w.iters++; w.iters%100000 == 0 && w.beats < 300 && w.Beat != nil {
+			w.beats++
+			w.Beat()
+		}
 		w.inDriver.Store(false)
 		synctest.Wait()
 		w.inDriver.Store(true)
